@@ -57,6 +57,9 @@ func (w *World) prelude() string {
 }
 
 func (o *Obligation) query() string {
+	if o.Custom != "" {
+		return o.Custom
+	}
 	var b strings.Builder
 	b.WriteString(o.fx.W.prelude())
 	for _, l := range o.fx.lines[:o.prefix] {
@@ -88,7 +91,7 @@ func dischargeAll(obls []*Obligation, timeoutS int, workers int) {
 		go func() {
 			defer wg.Done()
 			for o := range ch {
-				if o.Goal == "true" || o.PC == "false" {
+				if o.Custom == "" && (o.Goal == "true" || o.PC == "false") {
 					o.Answer = &SolverAnswer{Verdict: VUnsat, Solver: "syntactic"}
 					bump("syntactic")
 					continue
